@@ -350,6 +350,21 @@ def get_vxc_full_response(
     return excsum, -vmat
 
 
+def _check_response_weights(grids, weight, ip0, ip1):
+    """
+    The NLDF energy depends on the atomic partition itself (the features are
+    built from per-atom projections of weight * density), so the weight
+    derivatives are only meaningful if they belong to the weights the energy
+    was computed with.
+    """
+    ref = grids.grids_indexer.all_weights[ip0:ip1]
+    if weight.shape != ref.shape or not np.allclose(weight, ref, rtol=1e-8, atol=1e-10):
+        raise NotImplementedError(
+            "The grid-response weights do not match the integration grid of the "
+            "energy (e.g. ghost atoms); use grid_response=False"
+        )
+
+
 def get_vxc_nldf_full_response(
     ni, mol, grids, xc_code, dms, relativity=0, hermi=1, max_memory=2000, verbose=None
 ):
@@ -446,6 +461,7 @@ def get_vxc_nldf_full_response(
         mask = gen_grid.make_mask(mol, coords)
         ao = ni.eval_ao(mol, coords, deriv=ao_deriv, non0tab=mask, cutoff=grids.cutoff)
         ip0, ip1 = ga_loc[atm_id : atm_id + 2]
+        _check_response_weights(grids, weight, ip0, ip1)
         rho = np.ascontiguousarray(rho_full[0, :, ip0:ip1])
         wv = np.ascontiguousarray(wv_full[0][:, ip0:ip1])
         vtmp = np.zeros((3, nao, nao))
